@@ -1,6 +1,6 @@
 (* C16 -- angle-limit exclusion drops exactly the flagged interfaces and solves the rest.  Statements only. *)
 From Coq Require Import ZArith QArith List Bool.
-From Forsys Require Import Model.Num Model.PyList Model.Interfaces Model.ForceSys Model.AngleLimit Proofs.InterfacesProofs Proofs.ForceSysProofs Proofs.AngleProofs.
+From Forsys Require Import Model.Num Model.PyList Model.Interfaces Model.ForceSys Model.AngleLimit Proofs.InterfacesProofs Proofs.ForceSysProofs Proofs.AngleProofs Proofs.RestrictedProofs.
 Import ListNotations.
 
 (* the unknowns are the internal interfaces minus those flagged at both ends, in the same order *)
@@ -44,6 +44,26 @@ Example C16_example :
   reinsert [1; 2; 3]%Z [[1; 9; 2]; [2; 8; 5]; [3; 7; 1]]%Z [(7 # 2)%Q] = [(-1)%Q; (7 # 2)%Q; (-1)%Q].
 Proof. vm_compute. split; reflexivity. Qed.
 
+(* ---- the restricted system: one junction's two equations for the interfaces left in = the unrestricted equations with the columns of
+   the excluded interfaces dropped (each incident interface is recognised by its own id list only: unique_match) *)
+Theorem C16_restricted_equations_drop_the_excluded_columns : forall deletes internal ncells_v incs, NoDup internal ->
+  (forall inc, In inc incs -> eligible ncells_v inc = true -> unique_match internal (inc_ids inc)) ->
+  let mask := map (fun e => negb (both_ends_in deletes e)) internal in
+  vertex_equation (angle_limited_edges deletes internal) ncells_v incs =
+  (dropf mask (fst (vertex_equation internal ncells_v incs)), dropf mask (snd (vertex_equation internal ncells_v incs))).
+Proof. exact angle_limited_equation_drops_columns. Qed.
+
+(* three interfaces at junction 1; the angle limit flagged junctions 1 and 3, so the interface [1; 3] leaves the system *)
+Example C16_restricted_example :
+  let internal := [[1; 2]; [1; 3]; [1; 4]]%Z in
+  let incs := [mkInc [1; 2]%Z false (3 # 5) (4 # 5); mkInc [1; 3]%Z false (-3 # 5) (4 # 5); mkInc [1; 4]%Z false 0 (-1 # 1)]%Q in
+  NoDup internal /\ (forall inc, In inc incs -> eligible 3%Z inc = true -> unique_match internal (inc_ids inc)) /\
+  angle_limited_edges [1; 3]%Z internal = [[1; 2]; [1; 4]]%Z /\
+  vertex_equation (angle_limited_edges [1; 3]%Z internal) 3%Z incs = ([3 # 5; 0], [4 # 5; -1 # 1])%Q /\
+  vertex_equation internal 3%Z incs = ([3 # 5; -3 # 5; 0], [4 # 5; 4 # 5; -1 # 1])%Q.
+Proof. cbv zeta. split; [repeat constructor; simpl; intuition discriminate|]. split; [|vm_compute; repeat split; reflexivity].
+  intros inc [<- | [<- | [<- | []]]] _; (split; [reflexivity|]); intros e [<- | [<- | [<- | []]]]; vm_compute; intros H; try reflexivity; discriminate. Qed.
+
 Print Assumptions C16_used_is_filter.
 Print Assumptions C16_excluded_iff_both_ends.
 Print Assumptions C16_nothing_flagged_nothing_excluded.
@@ -51,3 +71,4 @@ Print Assumptions C16_reinsert_spec.
 Print Assumptions C16_reinsert_identity.
 Print Assumptions C16_flagged_iff_some_pair.
 Print Assumptions C16_flagged_junctions_spec.
+Print Assumptions C16_restricted_equations_drop_the_excluded_columns.
